@@ -17,6 +17,8 @@
 (*              gives back the match, and for link-free content the          *)
 (*              positions are those in the readable text.                    *)
 (***************************************************************************)
+(* (an event with op.via = "script" is the same replacement made by the odfdo-replace command's function on a saved   *)
+(*  document and observed after reopening the result: it returns no count, every other clause applies)            *)
 EXTENDS Markup, Json, IOUtils, TLCExt
 
 Traces == JsonDeserialize(IOEnv.TRACE_FILE)
@@ -72,7 +74,7 @@ Verdict(ev) ==
         want == RewriteAll(ev.pre, ev.spans, IF Has(o, "new") THEN o.new ELSE <<>>)
     IN  (IF Has(ev, "exc") THEN {"exc"} ELSE {})
    \cup (IF Has(o, "p") /\ ev.spans # SlotSpans(ev.pre, o.p) THEN {"harness:spans-differ-from-literal-occurrences"} ELSE {})
-   \cup (IF o.op \in {"count", "replace"} /\ ~Has(ev, "exc") /\ ev.ret # TotalSpans(ev.spans) THEN {"count"} ELSE {})
+   \cup (IF o.op \in {"count", "replace"} /\ ~Has(ev, "exc") /\ ~Has(o, "via") /\ ev.ret # TotalSpans(ev.spans) THEN {"count"} ELSE {})
    \cup (IF o.op = "count" /\ Flat0(ev.post) # Flat0(ev.pre) THEN {"count-changed-element"} ELSE {})
    \cup (IF o.op = "replace" /\ ~o.formatted /\ Flat0(ev.post) # Flat0(want) THEN {"replace-result"} ELSE {})
    \cup (IF o.op = "replace" /\ o.formatted /\ Decode(ev.post) # Decode(want) THEN {"formatted-text"} ELSE {})
